@@ -15,7 +15,9 @@ UTC = datetime.timezone.utc
 
 
 def _eval(src):
-    return eval(src, dict(V.NS, PurePosixPath=pathlib.PurePosixPath, PureWindowsPath=pathlib.PureWindowsPath))
+    import ipaddress
+
+    return eval(src, dict(V.NS, PurePosixPath=pathlib.PurePosixPath, PureWindowsPath=pathlib.PureWindowsPath, IP4=ipaddress.IPv4Address, IP6=ipaddress.IPv6Address))
 
 
 def deep(v):
